@@ -412,7 +412,7 @@ def _typed_positions(ctx, tm, tf):
                f'a callable whose only annotation is at `{pos}` is reported as typed={out!r}')
 
 
-def _hookable(ctx, pm, hf):
+def _hookable(ctx, pm, hf, RULE='C05.R6'):
     """make_conf_hookable, interpreted for both values of the "user set the warning class" flag."""
     from sa.fold import _PyCallable
     from sa.gen import AConf
@@ -429,7 +429,8 @@ def _hookable(ctx, pm, hf):
     F.stubs['beartype._conf.conftest.die_unless_conf'] = lambda e, a, k: None
     try:
         for isset in (False, True):
-            conf = AConf(_is_warning_cls_on_decorator_exception_set=isset)
+            # (the public option reads None in both cases: an explicit None means "raise at decoration time")
+            conf = AConf(_is_warning_cls_on_decorator_exception_set=isset, warning_cls_on_decorator_exception=None)
             conf.kwargs = {'is_debug': False, 'claw_is_pep526': True, 'warning_cls_on_decorator_exception': None}
             del made[:]
             try:
@@ -446,7 +447,7 @@ def _hookable(ctx, pm, hf):
                 ok = len(made) == 1 and getattr(out, '_made_from', None) is kw and getattr(w, 'name', None) == 'BeartypeClawDecorWarning' \
                     and rest == {'is_debug': False, 'claw_is_pep526': True} and conf.kwargs['warning_cls_on_decorator_exception'] is None
                 detail = f'returns {out!r}; built with warning class {w!r}, other options {rest}'
-            ctx.ob('C05.R6', f'make_conf_hookable:warning-class:user-set={isset}', pm.where(hf),
+            ctx.ob(RULE, f'make_conf_hookable:warning-class:user-set={isset}', pm.where(hf),
                    'a configuration whose warning class the user did not set is replaced by an otherwise equal one '
                    'reporting decoration failures as BeartypeClawDecorWarning (the caller\'s kwargs untouched); a '
                    'user-set class is respected', ok, detail)
